@@ -3,7 +3,15 @@
 Read with `ast` (never imported):
 * fn_deco_pedantic.py  — the test guarding `_check_docstring(...)` in `pedantic.decorator`, translated *as Python parses it*
   (`A and (B or C) > 0`), where the guarded call sits, the early return when disabled, the flag `pedantic_require_docstring` passes;
-* class_decorators.py  — what `pedantic_class_require_docstring` applies to the methods;
+* class_decorators.py  — what `pedantic_class_require_docstring` applies to the methods; which members of a class `for_all_methods`
+  hands to the decorator: the classes of the `isinstance` test of the function branch, and — by a small abstract interpretation of
+  the property branch (`property_parts`) — which accessors of a property (`fget` / `fset` / `fdel`) are passed through the decorator
+  and end up in the property the class gets back;
+* decorated_function.py — where the docstring that is checked comes from (`parse(func.__doc__)`, `raw_doc` = `self._func.__doc__`:
+  the function's OWN docstring, not `inspect.getdoc`, which inherits);
+* the three modules on the way (fn_deco_pedantic / check_docstring / decorated_function) — anything that can carry state from one
+  decoration to the next (module-level mutable bindings, `global` / `nonlocal`, caching decorators, mutable defaults, attributes set
+  on functions): `decorationState`;
 * check_docstring.py   — `_assert_docstring_is_complete`: every `if <test>: raise <Exc>` in order; `_check_docstring`: the branch
   tests of the loop, the comparisons (`len(...) != 2`, `len(matching_params) != 1 or ... is None`, the (in)equalities between
   expected and documented type), the exception class of every `raise`, the index into `doc.returns.args`;
@@ -18,6 +26,7 @@ from extract import Skip, src, find_func, lean_bool, lean_str, HEADER
 F_PED = 'pedantic/decorators/fn_deco_pedantic.py'
 F_DOC = 'pedantic/type_checking_logic/check_docstring.py'
 F_CLS = 'pedantic/decorators/class_decorators.py'
+F_DF = 'pedantic/models/decorated_function.py'
 
 PRELUDE = '''set_option linter.unusedVariables false
 namespace PedVerif.Gen.Docstring
@@ -182,8 +191,212 @@ def lookup_of(stmt):
     return exact, ast.unparse(lam).replace('-/', '- /').replace('\n', ' ')
 
 
+
+PARTS = ('fget', 'fset', 'fdel')
+SLOT_METHOD = {'getter': 'fget', 'setter': 'fset', 'deleter': 'fdel'}
+
+
+def get_wrapped_is_guarded_decorator(tree):
+    """`_get_wrapped(prop, decorator)` is `return decorator(prop) if prop is not None else None` (names of the parameters as they are)"""
+    try:
+        fn = find_func(tree, '_get_wrapped')
+    except Skip:
+        return None
+    a = [x.arg for x in fn.args.args]
+    b = body_of(fn)
+    if len(a) != 2 or len(b) != 1 or not isinstance(b[0], ast.Return):
+        return None
+    pr, de = a
+    ok = ast.unparse(b[0].value) in (f'{de}({pr}) if {pr} is not None else None', f'None if {pr} is None else {de}({pr})')
+    return (pr, de) if ok else None
+
+
+def property_parts(branch_body, prop_expr, cls_arg, var, gw):
+    """Abstract interpretation of the body of `elif isinstance(attr_value, property):` in `for_all_methods.decorate`.
+    Abstract values: ('P',) the property found in the class; ('acc', part) one of its accessors; ('dec', part) that accessor passed
+    through `decorator` (None stays None); ('new', {slot: value}) a property object built here, per slot what it holds: ('dec', part) /
+    ('acc', part) / None.  Returns (parts whose slot of the property that replaces the attribute holds ('dec', <the same part>),
+    is the attribute replaced at all).  Anything else: Skip."""
+    env = {prop_expr: ('P',)}
+
+    def ev(e, guards=frozenset()):
+        u = ast.unparse(e)
+        if isinstance(e, ast.Name) and e.id in env:
+            return env[e.id]
+        if isinstance(e, ast.Constant) and e.value is None:
+            return None
+        if isinstance(e, ast.Attribute) and e.attr in PARTS and ev(e.value) == ('P',):
+            return ('acc', e.attr)
+        if isinstance(e, ast.IfExp) and isinstance(e.test, ast.Compare) and len(e.test.ops) == 1 \
+                and ast.unparse(e.test.comparators[0]) == 'None' and isinstance(e.test.ops[0], (ast.Is, ast.IsNot)):
+            # `decorator(<acc>) if <acc> is not None else None` (or the mirrored form): the accessor, decorated when there is one
+            a = ev(e.test.left)
+            then, other = (e.body, e.orelse) if isinstance(e.test.ops[0], ast.IsNot) else (e.orelse, e.body)
+            if isinstance(a, tuple) and a[0] == 'acc' and ev(other) is None:
+                v = ev(then, guards | {a[1]})
+                if v in (('dec', a[1]), ('acc', a[1])):
+                    return v
+        if isinstance(e, ast.Call):
+            f = e.func
+            kws = {k.arg: k.value for k in e.keywords}
+            if isinstance(f, ast.Name) and f.id == 'decorator' and len(e.args) == 1 and not e.keywords:
+                a = ev(e.args[0])
+                if isinstance(a, tuple) and a[0] == 'acc':
+                    if a[1] not in guards:
+                        raise Skip(f'for_all_methods: `{u}` without a test that the accessor is not None')
+                    return ('dec', a[1])
+            if isinstance(f, ast.Name) and f.id == '_get_wrapped' and gw is not None:
+                args = dict(zip(gw, e.args))
+                args.update(kws)
+                if set(args) == set(gw) and ast.unparse(args[gw[1]]) == 'decorator':
+                    a = ev(args[gw[0]])
+                    if isinstance(a, tuple) and a[0] == 'acc':
+                        return ('dec', a[1])
+            if isinstance(f, ast.Name) and f.id == 'property':
+                slots = dict(zip(PARTS + ('doc',), e.args))
+                slots.update(kws)
+                if not set(slots) <= set(PARTS + ('doc',)):
+                    raise Skip(f'for_all_methods: `{u}`: unknown argument of property()')
+                return ('new', {p: (ev(slots[p], guards) if p in slots else None) for p in PARTS})
+            if isinstance(f, ast.Attribute) and f.attr in SLOT_METHOD and len(e.args) == 1 and not e.keywords:
+                b = ev(f.value, guards)
+                if b == ('P',):
+                    b = ('new', {p: ('acc', p) for p in PARTS})
+                if isinstance(b, tuple) and b[0] == 'new':
+                    return ('new', {**b[1], SLOT_METHOD[f.attr]: ev(e.args[0], guards)})
+        raise Skip(f'for_all_methods: expression outside the subset in the property branch: {u[:60]}')
+
+    replaced = [None]
+
+    def run(stmts, guards):
+        for st in stmts:
+            if isinstance(st, ast.Assign) and len(st.targets) == 1 and isinstance(st.targets[0], ast.Name):
+                env[st.targets[0].id] = ev(st.value, guards)
+            elif isinstance(st, ast.If) and not st.orelse and isinstance(st.test, ast.Compare) and len(st.test.ops) == 1 \
+                    and isinstance(st.test.ops[0], ast.IsNot) and ast.unparse(st.test.comparators[0]) == 'None' \
+                    and isinstance(ev(st.test.left), tuple) and ev(st.test.left)[0] == 'acc':
+                # `if <P>.<part> is not None: <statements>` — when the accessor is None the slot keeps what it held (None for the part)
+                part = ev(st.test.left)[1]
+                before = dict(env)
+                run(st.body, guards | {part})
+                for k, v in list(env.items()):
+                    if before.get(k) != v:
+                        # only a property whose slot `part` changed from the (None) accessor to its decorated form may differ
+                        ok = isinstance(v, tuple) and v[0] == 'new' and isinstance(before.get(k), tuple) and before[k][0] in ('new', 'P')
+                        old = before[k][1] if before[k][0] == 'new' else {p: ('acc', p) for p in PARTS}
+                        if not ok or any(v[1][p] != old[p] for p in PARTS if p != part) or old[part] != ('acc', part):
+                            raise Skip('for_all_methods: a guarded statement of the property branch changes more than the guarded slot')
+            elif isinstance(st, ast.Expr) and isinstance(st.value, ast.Call) and ast.unparse(st.value.func) == 'setattr' \
+                    and len(st.value.args) == 3 and not st.value.keywords and not guards \
+                    and [ast.unparse(a) for a in st.value.args[:2]] == [cls_arg, var]:
+                replaced[0] = ev(st.value.args[2])
+            else:
+                raise Skip(f'for_all_methods: statement outside the subset in the property branch: {ast.unparse(st)[:60]}')
+    run(branch_body, frozenset())
+    new = replaced[0]
+    if new is None:
+        return [], False
+    if new == ('P',):
+        return [], True
+    if not (isinstance(new, tuple) and new[0] == 'new'):
+        raise Skip('for_all_methods: the property branch stores something that is not a property')
+    for p in PARTS:
+        v = new[1][p]
+        if v not in (('dec', p), ('acc', p)):
+            # a slot that loses its accessor or gets another one: not a question of docstring checking alone; leave it to the call layer
+            raise Skip(f'for_all_methods: the new property does not keep the accessor `{p}` in its slot')
+    return [p for p in PARTS if new[1][p] == ('dec', p)], True
+
+
+MUTABLE_CALLS = {'set', 'dict', 'list', 'WeakSet', 'WeakKeyDictionary', 'WeakValueDictionary', 'defaultdict', 'OrderedDict', 'deque',
+                 'Counter', 'Lock', 'RLock', 'local', 'ContextVar'}
+CACHES = {'cache', 'lru_cache', 'cached_property', 'memoize', 'cached'}
+
+
+def is_mutable_expr(v):
+    if isinstance(v, (ast.List, ast.Dict, ast.Set, ast.ListComp, ast.DictComp, ast.SetComp)):
+        return True
+    if isinstance(v, ast.Call):
+        name = v.func.attr if isinstance(v.func, ast.Attribute) else (v.func.id if isinstance(v.func, ast.Name) else '')
+        return name in MUTABLE_CALLS or name[:1].isupper()        # an instance of some class
+    return False
+
+
+def decoration_state(rel, tree):
+    """what could carry information from one decoration to the next in one module"""
+    out = []
+    defs = set()
+
+    def module_level(stmts):          # the statements executed at import time (also inside try / if / with / for at module level)
+        for st in stmts:
+            yield st
+            if not isinstance(st, (ast.FunctionDef, ast.AsyncFunctionDef, ast.ClassDef)):
+                for field in ('body', 'orelse', 'finalbody'):
+                    yield from module_level(getattr(st, field, []) or [])
+                for h in getattr(st, 'handlers', []) or []:
+                    yield from module_level(h.body)
+    for st in module_level(tree.body):
+        if isinstance(st, (ast.FunctionDef, ast.AsyncFunctionDef, ast.ClassDef)):
+            defs.add(st.name)
+    for st in module_level(tree.body):
+        tgts, val = [], None
+        if isinstance(st, ast.Assign):
+            tgts, val = st.targets, st.value
+        elif isinstance(st, (ast.AnnAssign, ast.AugAssign)):
+            tgts, val = [st.target], st.value
+        for t in tgts:
+            if isinstance(t, ast.Attribute) and isinstance(t.value, ast.Name) and t.value.id in defs:
+                out.append(f'{rel}: attribute {ast.unparse(t)} set on a function / class')
+            elif val is not None and is_mutable_expr(val) and not (isinstance(t, ast.Name) and t.id.isupper() and isinstance(val, ast.List)
+                                                                   and all(isinstance(e, ast.Constant) for e in val.elts)):
+                out.append(f'{rel}: module-level mutable binding {ast.unparse(t)}')
+    for n in ast.walk(tree):
+        if isinstance(n, (ast.Global, ast.Nonlocal)):
+            out.append(f'{rel}: {"global" if isinstance(n, ast.Global) else "nonlocal"} {", ".join(n.names)}')
+        if isinstance(n, (ast.FunctionDef, ast.AsyncFunctionDef)):
+            for d in n.decorator_list:
+                f = d.func if isinstance(d, ast.Call) else d
+                name = f.attr if isinstance(f, ast.Attribute) else (f.id if isinstance(f, ast.Name) else '')
+                if name in CACHES:
+                    out.append(f'{rel}: {n.name} is decorated with {name}')
+            for dflt in list(n.args.defaults) + [d for d in n.args.kw_defaults if d is not None]:
+                if is_mutable_expr(dflt):
+                    out.append(f'{rel}: {n.name} has a mutable default argument')
+    return out
+
+
+def own_docstring_facts(tree):
+    """DecoratedFunction: (the parsed docstring is `parse(<func>.__doc__)`, raw_doc returns `<func>.__doc__`) where <func> is the
+    constructor's argument / `self._func` (one level of local or attribute aliasing is followed)"""
+    init = find_func(tree, '__init__', 'DecoratedFunction')
+    fn_arg = init.args.args[1].arg if len(init.args.args) >= 2 else None
+    own = {f'{fn_arg}.__doc__'}
+    attr_alias = {}
+    for st in init.body:
+        if isinstance(st, ast.Assign) and len(st.targets) == 1:
+            t, v = ast.unparse(st.targets[0]), ast.unparse(st.value)
+            if v == fn_arg and t.startswith('self.'):
+                own.add(f'{t}.__doc__')
+            if v in own:
+                own.add(t)
+                attr_alias[t] = v
+    parsed_own = None
+    for n in ast.walk(init):
+        if isinstance(n, ast.Assign) and ast.unparse(n.targets[0]) == 'self._docstring' and isinstance(n.value, ast.Call) \
+                and ast.unparse(n.value.func) == 'parse':
+            ok = len(n.value.args) + len(n.value.keywords) == 1 and ast.unparse((n.value.args + [k.value for k in n.value.keywords])[0]) in own
+            parsed_own = ok if parsed_own is None else (parsed_own and ok)
+    try:
+        rd = find_func(tree, 'raw_doc', 'DecoratedFunction')
+        b = body_of(rd)
+        raw_own = len(b) == 1 and isinstance(b[0], ast.Return) and ast.unparse(b[0].value) in own
+    except Skip:
+        raw_own = False
+    return bool(parsed_own), raw_own
+
+
 def gen_docstring(repo):
-    out = [HEADER.format(rel=', '.join((F_PED, F_DOC, F_CLS))), PRELUDE]
+    out = [HEADER.format(rel=', '.join((F_PED, F_DOC, F_CLS, F_DF))), PRELUDE]
 
     # ------------------------------------------------------------------ pedantic.decorator
     t_ped = ast.parse(src(repo, F_PED))
@@ -241,6 +454,7 @@ def gen_docstring(repo):
     fbody = body_of(dec_fn)
     loops = [k for k, st in enumerate(fbody) if isinstance(st, ast.For) and ast.unparse(st.iter) == f'{cls_arg}.__dict__']
     early, decorates_every = [], False
+    fn_types, prop_parts, prop_replaced, prop_branch = [], [], False, False
     if len(loops) != 1:
         early.append(f'<no single loop over {cls_arg}.__dict__>')
     else:
@@ -257,6 +471,20 @@ def gen_docstring(repo):
             i1 = lbody[1]
             decorates_every = (ast.unparse(i1.test) == 'isinstance(attr_value, (types.FunctionType, types.MethodType))'
                                and [ast.unparse(x) for x in i1.body] == [f'setattr({cls_arg}, {var}, decorator(attr_value))'])
+            # the classes of the function branch: `isinstance(attr_value, <class> | (<classes>))` whose body hands the value to the decorator
+            t = i1.test
+            if isinstance(t, ast.Call) and ast.unparse(t.func) == 'isinstance' and len(t.args) == 2 and ast.unparse(t.args[0]) == 'attr_value' \
+                    and [ast.unparse(x) for x in i1.body] == [f'setattr({cls_arg}, {var}, decorator(attr_value))']:
+                elts = t.args[1].elts if isinstance(t.args[1], ast.Tuple) else [t.args[1]]
+                fn_types = sorted({ast.unparse(e).split('.')[-1] for e in elts})
+            # the property branch
+            rest = i1.orelse
+            if len(rest) == 1 and isinstance(rest[0], ast.If) and ast.unparse(rest[0].test) == 'isinstance(attr_value, property)' \
+                    and not rest[0].orelse:
+                prop_branch = True
+                prop_parts, prop_replaced = property_parts(rest[0].body, 'attr_value', cls_arg, var, get_wrapped_is_guarded_decorator(t_cls))
+            elif rest:
+                raise Skip('for_all_methods: the branch after the function branch is not `elif isinstance(attr_value, property):`')
     early_l = '[' + ', '.join(lean_str(e) for e in early) + ']'
     out.append(f'''
 /-! ### `for_all_methods` / the class shortcuts (class_decorators.py) -/
@@ -270,6 +498,16 @@ def forAllMethodsEarlyReturns : List String := {early_l}
 /-- the loop is `for attr in cls.__dict__:` — the class's OWN attributes, whatever its bases are — and it replaces every attribute
     that is a function by `decorator(<the function>)` (an exception raised by the decorator leaves the class decorator) -/
 def forAllMethodsDecoratesEveryFunction : Bool := {lean_bool(decorates_every)}
+/-- the classes of the test of that branch (`isinstance(attr_value, (…))`, last component of each dotted name, sorted): `getattr(cls, attr)`
+    is a `FunctionType` for a plain function and for a `staticmethod`, a `MethodType` for a `classmethod` -/
+def forAllMethodsFunctionTypes : List String := [{', '.join(lean_str(x) for x in fn_types)}]
+/-- there is a branch `elif isinstance(attr_value, property):` and it stores a property under the attribute's name -/
+def forAllMethodsHandlesProperties : Bool := {lean_bool(prop_branch and prop_replaced)}
+/-- the accessors of a property that are passed through `decorator` (when they are not None) and sit, decorated, in the slot of the
+    same name of the property the class gets back — by abstract interpretation of the property branch (`property(fget=…, fset=…,
+    fdel=…)` of `_get_wrapped(…)` / guarded `decorator(…)` values, or a chain of `.getter(…)` / `.setter(…)` / `.deleter(…)`).  An accessor
+    that is not listed keeps its undecorated function: its docstring is never checked. -/
+def forAllMethodsPropertyParts : List String := [{', '.join(lean_str(x) for x in prop_parts)}]
 ''')
     out.append(f'''
 /-! ### `pedantic.decorator` (fn_deco_pedantic.py) -/
@@ -289,8 +527,27 @@ def requireShortcutFlag : Bool := {lean_bool(flag)}
 def classShortcutUsesRequireDocstring : Bool := {lean_bool(cls_ok)}
 ''')
 
-    # ------------------------------------------------------------------ _assert_docstring_is_complete
+    # ------------------------------------------------------------------ DecoratedFunction / state between decorations
     t_doc = ast.parse(src(repo, F_DOC))
+    t_df = ast.parse(src(repo, F_DF))
+    parsed_own, raw_own = own_docstring_facts(t_df)
+    state = decoration_state(F_PED, t_ped) + decoration_state(F_DOC, t_doc) + decoration_state(F_DF, t_df)
+    out.append(f'''
+/-! ### where the docstring comes from (decorated_function.py) and what survives a decoration -/
+
+/-- `DecoratedFunction.docstring` is `parse(func.__doc__)`: the docstring the function itself carries (not `inspect.getdoc(func)`, which
+    falls back to the docstring of the method a base class defines under the same name) -/
+def parsedDocstringIsOwnDoc : Bool := {lean_bool(parsed_own)}
+/-- `DecoratedFunction.raw_doc` returns `self._func.__doc__` -/
+def rawDocIsOwnDoc : Bool := {lean_bool(raw_own)}
+/-- everything in fn_deco_pedantic.py / check_docstring.py / decorated_function.py that could carry information from one decoration to a
+    later one: module-level mutable bindings (other than lists of constants), attributes set on functions, `global` / `nonlocal`
+    statements, caching decorators, mutable default arguments.  Empty: the verdict on a function depends on that function alone —
+    executing the same `def` again (a factory, a loop, a reloaded module: same code object, new annotations) is checked again. -/
+def decorationState : List String := [{', '.join(lean_str(x) for x in state)}]
+''')
+
+    # ------------------------------------------------------------------ _assert_docstring_is_complete
     comp = body_of(find_func(t_doc, '_assert_docstring_is_complete'))
     at = Atoms(names={'num_documented_args': '(.i numDocumented)', 'num_taken_args': '(.i numTaken)'},
                noneness={'func.raw_doc': ('rawDocIsNone', True), 'func.docstring.returns': ('docReturnsIsNone', True),
@@ -339,8 +596,32 @@ def completeCountsAsExpected : Bool := {lean_bool(counts_ok)}
     for s in chk[li + 1:]:
         raise Skip('_check_docstring: statements after the loop')
     complete_before = any(ast.unparse(s) == '_assert_docstring_is_complete(func=decorated_func)' for s in chk[:li])
-    if not {'doc = decorated_func.docstring', 'context = {}'} <= {ast.unparse(s) for s in chk[:li]}:
-        raise Skip('_check_docstring: `doc` / `context` are not set up as expected')
+    setup = [ast.unparse(s) for s in chk[:li]]
+    if 'doc = decorated_func.docstring' not in setup:
+        raise Skip('_check_docstring: `doc` is not set up as expected')
+    # what the evaluation context starts from: nothing, or a COPY of the globals of the module that defines the function
+    ctx_init = [s.value for s in chk[:li] if isinstance(s, ast.Assign) and len(s.targets) == 1 and ast.unparse(s.targets[0]) == 'context']
+    if len(ctx_init) != 1:
+        raise Skip('_check_docstring: `context` is not assigned exactly once before the loop')
+    for st in setup:
+        if st not in ('doc = decorated_func.docstring', 'err = decorated_func.err', '_assert_docstring_is_complete(func=decorated_func)') \
+                and not st.startswith('context = '):
+            raise Skip(f'_check_docstring: statement outside the subset before the loop: {st[:60]}')
+    ci = ast.unparse(ctx_init[0])
+    if ci in ('{}', 'dict()'):
+        seeded = False
+    elif ci in ('dict(decorated_func.globals)', '{**decorated_func.globals}', 'decorated_func.globals.copy()'):
+        seeded = True
+    else:
+        raise Skip(f'_check_docstring: `context = {ci[:50]}` is outside the subset')
+    if seeded:
+        # `DecoratedFunction.globals` is the `__globals__` of the (unwrapped) function
+        gl = find_func(ast.parse(src(repo, F_DF)), 'globals', 'DecoratedFunction')
+        gb = body_of(gl)
+        if not (len(gb) == 1 and isinstance(gb[0], ast.Return)
+                and ast.unparse(gb[0].value) in ("getattr(inspect.unwrap(self._func), '__globals__', {})", 'self._func.__globals__',
+                                                 'inspect.unwrap(self._func).__globals__')):
+            raise Skip('DecoratedFunction.globals is not the __globals__ of the function')
     lb = list(loop.body)
     if not lb or ast.unparse(lb[0]) != 'expected_type = decorated_func.annotations[annotation]':
         raise Skip('_check_docstring: the loop does not start with `expected_type = decorated_func.annotations[annotation]`')
@@ -437,6 +718,11 @@ def completeCountsAsExpected : Bool := {lean_bool(counts_ok)}
 def completeCalledBeforeLoop : Bool := {lean_bool(complete_before)}
 /-- the loop body starts with `_update_context(context=context, type_=expected_type)` -/
 def contextUpdatedFirst : Bool := {lean_bool(ctx_first)}
+/-- before the loop the evaluation context is a copy of the globals of the module that defines the function (`context =
+    dict(decorated_func.globals)`, `DecoratedFunction.globals` = the function's `__globals__`) — the names the author of the module can
+    write in a docstring: type aliases, type variables bound under another identifier than their `__name__` —; false: it starts empty
+    (`context = {{}}`) and a documented name is only found when it is the `__name__` of a part of an annotation -/
+def contextSeededWithModuleNames : Bool := {lean_bool(seeded)}
 /-- test of the Returns branch: `{d(ret_test)}` -/
 def returnBranch (isReturn annIsNone : Bool) : Bool :=
   {cond(ret_test, at)}
